@@ -21,7 +21,7 @@ from mc.models import mapping as mm
 PROPERTY = 'C15'
 LEVEL = 'exploration'
 RULE = ("every tree shape with <= L levels / N leaves x label scheme {C: "
-        "quoting, D: same labels on all levels, B} x name tables {absent, "
+        "quoting and multi-byte characters, D: same labels on all levels, B} x name tables {absent, "
         "partial with readable level names} x level-name scheme {plain, "
         "containing name/label/alias/assignment} x configurations "
         "{iterations 1 / 3} x {runners-up 0,1,2,10} x cell ids {ASCII, with "
